@@ -205,11 +205,14 @@ Check C05_history : forall dbg hp hpo hd u,
 Print Assumptions C05_history.
 
 (* ================= 4. the component clauses along histories ================= *)
-(* The two statements below were written down first, for EVERY reachable Url.  Both are FALSE of the
-   model - and of the crate: Url::set_path on an opaque-path URL escapes only a '/' in the very first
-   position of its argument ("%2F"); TAB / LF / CR are dropped by the input iterator afterwards and the
-   rest goes through the opaque-path state, whose encode set keeps space, dquote, '<', '>', backtick,
-   '{', '}'.  Url::parse("a:b") then set_path("<TAB>/ y") gives "a:/ y": not cannot-be-a-base, path "/ y". *)
+(* The two statements below are for EVERY reachable Url (Reachable contains every mutator with arbitrary
+   arguments, hence also the records the known defects F-C02-2/-3/-4/-8, F-C03-5 produce).  On the pinned
+   code both were FALSE (finding F-C06-6, found by this proof attempt and confirmed on the crate:
+   Url::parse("a:b") then set_path("<TAB>/ y") gave "a:/ y" - not cannot-be-a-base, path "/ y").  The code
+   was repaired (0cfc9d8: set_path tests for the leading '/' on the TAB / LF / CR-free input) and the
+   model follows it; the former witness now stays an opaque path (C05_F_C06_6_fixed).  With the repair
+   no counter-witness is known (a search over histories on the repaired crate found none); the statements
+   are kept as stated, NOT proved: what is proved is the gated form below. *)
 Definition C05_history_sharp_statement : Prop :=
   forall dbg hp hpo hd u, HostOK hp hpo hd -> IpOK hd -> Reachable dbg hp hpo hd u -> sharp u.
 
@@ -224,30 +227,21 @@ Definition C05_components_statement : Prop :=
   /\ (forall q, query dbg u = Some (Some q) -> forall d, In d [35; 32; 34; 60; 62] -> ~ In d q)
   /\ (forall f, fragment dbg u = Some (Some f) -> forall d, In d [32; 34; 60; 62; 96] -> ~ In d f).
 
-Theorem C05_components_refuted : ~ C05_components_statement.
+(* regression for F-C06-6: parse "a:b", set_path [TAB; '/'; ' '; 'y'] is reachable and gives "a:%2F y":
+   well-formed, still cannot-be-a-base, and `sharp` (the space is inside an opaque path) *)
+Theorem C05_F_C06_6_fixed : forall dbg,
+  Reachable dbg no_hp no_hp no_hd cw_end
+  /\ ser cw_end = [97; 58; 37; 50; 70; 32; 121]
+  /\ wf_b cw_end = true /\ cannot_be_a_base cw_end = Some true /\ sharp cw_end.
 Proof.
-  intros S. destruct no_host_ok as [H1 H2]. destruct cw_facts as (_ & _ & _ & C & P).
-  destruct (S true no_hp no_hp no_hd cw_end H1 H2 (cw_reachable true)) as (_ & _ & Hp & _).
-  apply (Hp C [47; 32; 121] P 32); [right; right; left; reflexivity | right; left; reflexivity].
+  intros dbg. destruct cw_fixed as (_ & W & _ & C & _ & S).
+  split; [apply cw_reachable|]. split; [reflexivity|]. split; [exact W|]. split; [exact C | exact S].
 Qed.
-Check C05_components_refuted : ~ C05_components_statement.
-Print Assumptions C05_components_refuted.
-
-Theorem C05_history_sharp_refuted : ~ C05_history_sharp_statement.
-Proof.
-  intros S. destruct no_host_ok as [H1 H2].
-  exact (cw_not_sharp (S true no_hp no_hp no_hd cw_end H1 H2 (cw_reachable true))).
-Qed.
-Check C05_history_sharp_refuted : ~ C05_history_sharp_statement.
-Print Assumptions C05_history_sharp_refuted.
-
-(* the witness itself: reachable (parse "a:b", set_path [TAB; '/'; ' '; 'y']), well-formed, not
-   cannot-be-a-base, with a space in the stored path *)
-Theorem C05_components_witness : exists dbg hp hpo hd u,
-  HostOK hp hpo hd /\ IpOK hd /\ Reachable dbg hp hpo hd u /\ wf_b u = true
-  /\ cannot_be_a_base u = Some false /\ exists p, path u = Some p /\ In 32 p.
-Proof. exact components_refuted. Qed.
-Print Assumptions C05_components_witness.
+Check C05_F_C06_6_fixed : forall dbg,
+  Reachable dbg no_hp no_hp no_hd cw_end
+  /\ ser cw_end = [97; 58; 37; 50; 70; 32; 121]
+  /\ wf_b cw_end = true /\ cannot_be_a_base cw_end = Some true /\ sharp cw_end.
+Print Assumptions C05_F_C06_6_fixed.
 
 (* What IS proved.  The hierarchical path states (parse_path_start and everything below it: segments,
    dot segments, drive letters, the file fix-up) in EVERY context - URL parser, Url::set_path,
@@ -275,8 +269,9 @@ Print Assumptions C05_path_states.
    the argument, exactly the known classes: set_host(None) with an empty path or a "//"-led path
    (F-C06-5, F-C02-2), host setters on a marker URL or an empty new host over a stored port (F-C03-5,
    F-C02-4), set_path with '?' / '#' into an opaque path (F-C02-3), a "//"-led result without marker or a
-   marker in front of a path that is not "//"-led (F-C02-8, F-C03-5), an opaque path that stops being
-   opaque (F-C06-6, the witness above); arguments are &str (usv_list) and u16.  NOT covered (gate False):
+   marker in front of a path that is not "//"-led (F-C02-8, F-C03-5); arguments are &str (usv_list) and
+   u16.  set_path on an opaque path needs no further exclusion (F-C06-6 is repaired: the path stays
+   opaque, C06_get_path_opaque).  NOT covered (gate False):
    path_segments_mut sessions and the quirks setters set_host / set_hostname / set_port / set_pathname. *)
 Theorem C05_components_step : forall dbg hp hpo hd u o u',
   CInv dbg u -> step_gate hd u o u' -> apply_op dbg hp hpo hd u o = Some u' ->
